@@ -31,6 +31,7 @@ type Cfg struct {
 	Adversary string      // C12: name of the malicious relay ("" = none)
 	Masks     []int       // C12: forgery subsets the adversary may attach (bit mask over 6 forgeries)
 	Prop      string      // "C11" or "C12"
+	SyncRPC   bool        // gossip RPCs return to the sender only on delivery, with the handler's answer
 }
 
 // Model implements space.Model.
@@ -100,6 +101,7 @@ func (m *Model) Init() {
 		f.ResetServices(ctx)
 	}
 	m.Net = world.NewNet(m.full, m.Cfg.Edges)
+	m.Net.Sync = m.Cfg.SyncRPC
 	m.seen = map[string]map[[32]byte]bool{}
 	for _, n := range m.Cfg.Nodes {
 		m.seen[n] = map[[32]byte]bool{}
@@ -133,12 +135,12 @@ func (m *Model) Init() {
 		vsched.Settle()
 	}
 	switch m.Cfg.Items {
-	case "vertex", "two-vertices", "then-second":
+	case "vertex", "two-vertices", "then-second", "pair-then-third":
 		m.itemKind = "vertex"
 		t1 := world.MakeTx(R, A.Addr, "g1", nil, spice.Melange{Currency: 1}, 9101)
 		m.W.Ref.LabelTx("g1", t1)
 		propose(t1)
-		if m.Cfg.Items == "two-vertices" {
+		if m.Cfg.Items == "two-vertices" || m.Cfg.Items == "pair-then-third" {
 			t2 := world.MakeTx(R, B.Addr, "g2", nil, spice.Melange{Currency: 1}, 9102)
 			m.W.Ref.LabelTx("g2", t2)
 			propose(t2)
@@ -267,7 +269,7 @@ func (m *Model) Enabled() []string {
 			out = append(out, fmt.Sprintf("U:%d", msg.ID))
 		}
 	}
-	if m.Cfg.Items == "then-second" && !m.injected && m.quiescent() {
+	if (m.Cfg.Items == "then-second" || m.Cfg.Items == "pair-then-third") && !m.injected && m.quiescent() {
 		out = append(out, "I:0")
 	}
 	if m.Cfg.Items == "trx-settled" && !m.settled {
@@ -362,8 +364,12 @@ func (m *Model) apply(e string) (res string, direct [32]byte, node string) {
 		// the origin seals a second, dependent item once the first one has spread
 		m.injected = true
 		origin := m.byName[m.Cfg.Origin]
-		t2 := world.MakeTx(world.Cast("R"), world.Cast("B").Addr, "g2", nil, spice.Melange{Currency: 1}, 9102)
-		m.W.Ref.LabelTx("g2", t2)
+		lbl, seq := "g2", 9102
+		if m.Cfg.Items == "pair-then-third" {
+			lbl, seq = "g3", 9104
+		}
+		t2 := world.MakeTx(world.Cast("R"), world.Cast("B").Addr, lbl, nil, spice.Melange{Currency: 1}, seq)
+		m.W.Ref.LabelTx(lbl, t2)
 		pt, err := transformers.TrxToProtoTrx(t2)
 		if err != nil {
 			panic(err)
@@ -377,7 +383,7 @@ func (m *Model) apply(e string) (res string, direct [32]byte, node string) {
 			m.W.Ref.Learn(v)
 		}
 		for _, v := range s.Vertices {
-			if m.W.Ref.TxLabels[v.Transaction.Hash] == "g2" {
+			if m.W.Ref.TxLabels[v.Transaction.Hash] == lbl {
 				m.items = append(m.items, v.Hash)
 				m.seen[m.Cfg.Origin][v.Hash] = true
 				return "ok", v.Hash, m.Cfg.Origin
@@ -520,7 +526,14 @@ func (m *Model) nodeKey(f *world.FullNode) string {
 	for _, l := range [][]string{live, parked, awaiting, flash} {
 		sort.Strings(l)
 	}
-	return fmt.Sprintf("%s{L[%s] P[%s] A[%s] F[%s]}", f.Name, strings.Join(live, " "), strings.Join(parked, " "), strings.Join(awaiting, " "), strings.Join(flash, " "))
+	var peers []string
+	if f.Gossip != nil {
+		for a := range f.Gossip.Peers() {
+			peers = append(peers, world.AddrName(a))
+		}
+	}
+	sort.Strings(peers)
+	return fmt.Sprintf("%s{L[%s] P[%s] A[%s] F[%s] N[%s]}", f.Name, strings.Join(live, " "), strings.Join(parked, " "), strings.Join(awaiting, " "), strings.Join(flash, " "), strings.Join(peers, " "))
 }
 
 // Key is the canonical state key: per-node ledgers, awaiting sets, seen sets and the in-flight bag.
